@@ -101,6 +101,8 @@ def dir_grid(draw, nmin=1, nmax=36, orders=("asc", "rolled", "desc"), spacing=("
 # ------------------------------------------------------------------------------ spectra
 
 SPEC_KINDS = ("bumps", "noisy", "plateau", "sparse", "monotone", "constant", "zero", "single_bin", "wide")
+# kinds weighted towards several well separated wave systems (for partitioning properties)
+MULTI_KINDS = ("multi", "multi", "multi", "noisy", "sparse", "sparse", "plateau", "bumps", "wide", "monotone", "constant", "zero", "single_bin")
 
 
 @st.composite
@@ -108,7 +110,14 @@ def spectrum(draw, kinds=SPEC_KINDS, maxbumps=4):
     """Spec of one (nf, nd) spectrum in *index space* (grid independent)."""
     kind = draw(st.sampled_from(kinds))
     s = dict(kind=kind, rs=draw(st.integers(0, 2**31 - 1)), amp=draw(st.sampled_from([1e-6, 1e-3, 0.05, 1.0, 30.0])))
-    if kind in ("bumps", "noisy", "plateau", "wide"):
+    if kind == "multi":
+        nb = draw(st.integers(2, 6))
+        s["bumps"] = [
+            dict(pf=draw(st.integers(0, 19)) / 19.0, pd=draw(st.integers(0, 23)) / 24.0, wf=draw(st.sampled_from([0.04, 0.07, 0.12])),
+                 wd=draw(st.sampled_from([0.05, 0.1, 0.2])), a=draw(st.sampled_from([0.1, 0.3, 0.5, 1.0, 1.0])))
+            for _ in range(nb)
+        ]
+    elif kind in ("bumps", "noisy", "plateau", "wide"):
         nb = draw(st.integers(1, maxbumps))
         s["bumps"] = [
             dict(
@@ -142,7 +151,7 @@ def build_spectrum(s, nf, nd, dtype=np.float64):
     di = (np.arange(nd) + 0.5) / nd
     kind = s["kind"]
     rs = np.random.RandomState(s["rs"] % (2**31 - 1))
-    if kind in ("bumps", "noisy", "plateau", "wide"):
+    if kind in ("bumps", "noisy", "plateau", "wide", "multi"):
         e = np.zeros((nf, nd))
         for b in s["bumps"]:
             gf = np.exp(-0.5 * ((fi - b["pf"]) / b["wf"]) ** 2)
